@@ -46,23 +46,9 @@ theorem rem2_cons_indep : ∀ q : PQ2, q.Cons d → ∀ c c', rem2 d cfg dec c q
   | following a sib inp it pos ih =>
     intro h c c'
     simp only [rem2, ih h.1 c c']
-    cases it with
-    | none => rfl
-    | some nq =>
-      obtain ⟨node, q⟩ := nq
-      cases q with
-      | none => simp only [folCur]
-      | some q => simp only [folCur, rem_innerOK d cfg (h.2 node (some q) rfl).2 c c']
   | preceding a sib inp it pos ih =>
     intro h c c'
     simp only [rem2, ih h.1 c c']
-    cases it with
-    | none => rfl
-    | some nq =>
-      obtain ⟨node, q⟩ := nq
-      cases q with
-      | none => simp only [precCur]
-      | some q => simp only [precCur, rem_innerOK d cfg (h.2 node (some q) rfl).2 c c']
 
 theorem mach2_laws : (mach2 d cfg dec).Laws where
   cons_inv := PQ2.cons_inv d
